@@ -4,7 +4,7 @@
    where "=" means the implementation's observation equals the model's, and props are the ids of
    the properties whose Spec the implementation's observation falsifies on this input. *)
 From Coq Require Import String.
-Require Import Base Node Command Glob Selector SelParse Policy PolicyIpld Chain Varint Generated Did Cbor Envelope Token SealProofs Base64 Container Stream SealedBytes.
+Require Import Base Node Command Glob Selector SelParse Policy PolicyIpld Chain Varint Generated Did Cbor Envelope Token SealProofs Base64 Container Stream SealedBytes Args.
 Local Open Scope N_scope.
 
 Definition nstr (n : node) : str := match n with Str s => s | Bytes s => s | _ => [] end.
@@ -766,13 +766,41 @@ Definition eng_chain (inp impl : node) : verdict :=
   | _ => bad
   end.
 
+(* ---------------- engine: args (pkg/args.Args and pkg/meta.Meta as containers; serves C10, C20) ---------------- *)
+Definition run_aop (ci : bool) (st : list node * cont) (op : node) : list node * cont :=
+  let '(sts, a) := st in
+  match op with
+  | List [Str kind; Str k; v] =>
+      if str_eqb kind (lit "add") then
+        match c_add ci a k v with Ok a' => (sts ++ [Bool true], a') | _ => (sts ++ [Bool false], a) end
+      else (* cloneadd: the clone takes the value or refuses it; the original is untouched *)
+        (sts ++ [Bool (is_ok (c_add ci a k v))], a)
+  | List [Str kind; List kvs] =>
+      let other := fold_left (fun o e => match e with
+                                        | List [Str k; v] => match c_add ci o k v with Ok o' => o' | _ => o end
+                                        | _ => o end) kvs [] in
+      (sts ++ [Bool true], c_include a other)
+  | _ => st
+  end.
+
+Definition eng_args (inp impl : node) : verdict :=
+  match inp with
+  | List [Str kind; List ops] =>
+      let ci := str_eqb kind (lit "args") in
+      let '(sts, a) := fold_left (run_aop ci) ops ([], []) in
+      let m := List [List sts; List (map (fun kv => List [Str (fst kv); snd kv]) a);
+                     (if ci then c_to_ipld a else Null); Bool (c_equals a a)] in
+      {| model_obs := m; violated := if node_eqb impl m then [] else [lit "C10"] |}
+  | _ => bad
+  end.
+
 (* ---------------- dispatcher ---------------- *)
 Definition engines : list (str * (node -> node -> verdict)) :=
   [ (lit "command", eng_command); (lit "glob", eng_glob);
     (lit "selector", eng_selector);
     (lit "policy", eng_policy);
     (lit "chain", eng_chain);
-    (lit "selparse", eng_selparse); (lit "cbor", eng_cbor); (lit "decoders", eng_decoders); (lit "conc", eng_conc); (lit "meta", eng_meta); (lit "container", eng_container); (lit "cid", eng_cid); (lit "stream", eng_stream); (lit "token", eng_token); (lit "did", eng_did); (lit "policyipld", eng_policyipld) ].
+    (lit "selparse", eng_selparse); (lit "cbor", eng_cbor); (lit "decoders", eng_decoders); (lit "conc", eng_conc); (lit "meta", eng_meta); (lit "container", eng_container); (lit "cid", eng_cid); (lit "stream", eng_stream); (lit "token", eng_token); (lit "did", eng_did); (lit "policyipld", eng_policyipld); (lit "args", eng_args) ].
 
 Fixpoint find_engine (e : str) (l : list (str * (node -> node -> verdict))) : option (node -> node -> verdict) :=
   match l with
